@@ -253,7 +253,7 @@ func (s *manager) shutdownSession(ctx context.Context, session *sessions.Session
 		}
 		s.state.SessionMetadatas().Delete(session.ID())
 	}
-	if !session.Disconnected {
+	if !session.Disconnected() {
 		L(ctx).Debug("session lost")
 		if lwt := session.LWT(); lwt != nil {
 			err := s.packetProcessor.Process(ctx, session, nil, lwt)
@@ -286,7 +286,7 @@ func (s *connectionWorker) processSession(ctx context.Context, session *sessions
 	err = s.manager.packetProcessor.Process(ctx, session, c, pkt)
 	if err != nil {
 		if err == ErrSessionDisconnected {
-			session.Disconnected = true
+			session.SetDisconnected()
 		} else {
 			L(ctx).Warn("packet processing failed", zap.Error(err))
 		}
